@@ -1,6 +1,6 @@
 """C06 — semaphore: the longest-waiting acquirer is never stranded (necessary wake-up rules)."""
 from rl import (entry_methods, loc_endswith, path_cond, trace_summary, where, const_of, fmt_val, fmt_loc, fields_of)
-from common import (w4_pending_stores_waker, w4_helper, own_node_roots, poll_variant, fifo_ends, contains)
+from common import (w4_pending_stores_waker, w4_helper, own_node_roots, poll_variant, fifo_ends, contains, cmp_fact)
 from lib import CheckerError
 
 STATE = 'sync::semaphore::SemaphoreState'
@@ -158,10 +158,11 @@ def run(C, R):
                 req = ('init', tok + ('data', 'required_permits'))
                 fits = False
                 for k, v in path.facts.items():
-                    if isinstance(k, tuple) and k and k[0] == 'bin' and k[1] in ('Lt', 'Ge') and k[3] == req \
-                            and contains(k[2], ('init', (('P', 'self'), 'permits'))):
-                        if (k[1] == 'Lt' and v == ('eq', 0)) or (k[1] == 'Ge' and v == ('eq', 1)):
-                            fits = True
+                    if isinstance(k, tuple) and k and k[0] == 'bin' and k[1] in ('Lt', 'Ge', 'Le', 'Gt'):
+                        for avail in (k[2], k[3]):
+                            if contains(avail, ('init', (('P', 'self'), 'permits'))) and \
+                                    cmp_fact(E, path.facts, 'Ge', avail, req) == 1:
+                                fits = True
                 task = ('init', tok + ('data', 'task'))
                 tk = E.variant_known(path.facts, task)
                 inner = E.project(task, (('dc', 'Some'), '0'))
